@@ -8,7 +8,7 @@ Import ListNotations.
 From SV Require Import Common.Int32 C02deep.Syntax C02deep.Sem C02deep.Passes.
 Open Scope Z_scope.
 
-Definition wit_world : world := mkworld (fun _ _ _ => Some 0) (fun _ => 0) (fun _ => 0) (fun _ v => v).
+Definition wit_world : world := mkworld (fun _ _ _ => Some 0) (fun _ => 0) (fun _ => 0) (fun _ v => v) (fun _ _ => 0).
 
 (* f(v1) { v2 = 1 + 2; loop (v3 = v2 then v2, v4 = v1 then v6) { v5 = v4 >= v3; if v5 break v3; v6 = v4 + 1 } -> v7; return v7 } *)
 Definition wit_raw_init : func :=
